@@ -100,4 +100,675 @@ theorem OpId.eq_of_not_lt {a b : OpId} (h₁ : a.lt b = false) (h₂ : b.lt a = 
   intro h
   rcases OpId.lt_total h with h | h <;> simp_all
 
+/-! ## §2 distinct ids -/
+
+/-- operation ids identify operations (an op list may still repeat the *same* op) -/
+def DistinctIds (ops : List Op) : Prop := ∀ a ∈ ops, ∀ b ∈ ops, a.id = b.id → a = b
+
+instance (ops : List Op) : Decidable (DistinctIds ops) := by
+  unfold DistinctIds; infer_instance
+
+/-- distinct ids and no repeated op: any two *positions* hold different ids -/
+def StrictIds (ops : List Op) : Prop := ops.Pairwise (fun a b => a.id ≠ b.id)
+
+instance (ops : List Op) : Decidable (StrictIds ops) := by
+  unfold StrictIds; infer_instance
+
+theorem DistinctIds.perm {l₁ l₂ : List Op} (hd : DistinctIds l₁) (h : l₁.Perm l₂) : DistinctIds l₂ :=
+  fun a ha b hb => hd a (h.mem_iff.mpr ha) b (h.mem_iff.mpr hb)
+
+theorem DistinctIds.subset {l₁ l₂ : List Op} (hd : DistinctIds l₁) (h : ∀ x ∈ l₂, x ∈ l₁) :
+    DistinctIds l₂ :=
+  fun a ha b hb => hd a (h a ha) b (h b hb)
+
+theorem DistinctIds.filter {l : List Op} (hd : DistinctIds l) (p : Op → Bool) :
+    DistinctIds (l.filter p) :=
+  hd.subset (fun _ hx => (List.mem_filter.mp hx).1)
+
+theorem StrictIds.distinctIds {l : List Op} (h : StrictIds l) : DistinctIds l := by
+  induction l with
+  | nil => intro a ha; cases ha
+  | cons x xs ih =>
+    have hx : ∀ b ∈ xs, x.id ≠ b.id := fun b hb => List.rel_of_pairwise_cons h hb
+    have ih := ih (List.Pairwise.of_cons h)
+    intro a ha b hb hab
+    rcases List.mem_cons.mp ha with rfl | ha' <;> rcases List.mem_cons.mp hb with rfl | hb'
+    · rfl
+    · exact absurd hab (hx _ hb')
+    · exact absurd hab.symm (hx _ ha')
+    · exact ih a ha' b hb' hab
+
+theorem StrictIds.nodup {l : List Op} (h : StrictIds l) : l.Nodup :=
+  List.Pairwise.imp (fun hne he => hne (by rw [he])) h
+
+theorem strictIds_iff {l : List Op} : StrictIds l ↔ DistinctIds l ∧ l.Nodup := by
+  refine ⟨fun h => ⟨h.distinctIds, h.nodup⟩, fun h => ?_⟩
+  obtain ⟨hd, hn⟩ := h
+  induction l with
+  | nil => exact List.Pairwise.nil
+  | cons x xs ih =>
+    rw [List.nodup_cons] at hn
+    refine List.Pairwise.cons (fun b hb he => ?_) (ih (hd.subset fun _ h => List.mem_cons_of_mem _ h) hn.2)
+    have := hd x List.mem_cons_self b (List.mem_cons_of_mem _ hb) he
+    exact hn.1 (this ▸ hb)
+
+theorem StrictIds.perm {l₁ l₂ : List Op} (hd : StrictIds l₁) (h : l₁.Perm l₂) : StrictIds l₂ :=
+  List.Pairwise.perm hd h (fun hne => fun he => hne he.symm)
+
+theorem StrictIds.filter {l : List Op} (hd : StrictIds l) (p : Op → Bool) : StrictIds (l.filter p) :=
+  List.Pairwise.filter p hd
+
+/-! ## §3 sorted lists are determined by their members -/
+
+/-- Two lists strictly sorted by an asymmetric relation and with the same members are equal. -/
+theorem eq_of_pairwise_of_mem_iff {α : Type} {r : α → α → Prop}
+    (hasym : ∀ a b, r a b → r b a → False) :
+    ∀ (l₁ l₂ : List α), l₁.Pairwise r → l₂.Pairwise r → (∀ x, x ∈ l₁ ↔ x ∈ l₂) → l₁ = l₂
+  | [], [], _, _, _ => rfl
+  | [], b :: l₂, _, _, h => by have := (h b).mpr List.mem_cons_self; cases this
+  | a :: l₁, [], _, _, h => by have := (h a).mp List.mem_cons_self; cases this
+  | a :: l₁, b :: l₂, h₁, h₂, h => by
+    have am : a ∈ b :: l₂ := (h a).mp List.mem_cons_self
+    have bm : b ∈ a :: l₁ := (h b).mpr List.mem_cons_self
+    have ab : a = b := by
+      rcases List.mem_cons.mp am with rfl | am
+      · rfl
+      · rcases List.mem_cons.mp bm with rfl | bm
+        · rfl
+        · exact (hasym _ _ (List.rel_of_pairwise_cons h₁ bm) (List.rel_of_pairwise_cons h₂ am)).elim
+    subst ab
+    have ht : ∀ x, x ∈ l₁ ↔ x ∈ l₂ := by
+      intro x
+      constructor
+      · intro hx
+        rcases List.mem_cons.mp ((h x).mp (List.mem_cons_of_mem _ hx)) with rfl | hx'
+        · exact (hasym _ _ (List.rel_of_pairwise_cons h₁ hx) (List.rel_of_pairwise_cons h₁ hx)).elim
+        · exact hx'
+      · intro hx
+        rcases List.mem_cons.mp ((h x).mpr (List.mem_cons_of_mem _ hx)) with rfl | hx'
+        · exact (hasym _ _ (List.rel_of_pairwise_cons h₂ hx) (List.rel_of_pairwise_cons h₂ hx)).elim
+        · exact hx'
+    rw [eq_of_pairwise_of_mem_iff hasym l₁ l₂ (List.Pairwise.of_cons h₁) (List.Pairwise.of_cons h₂) ht]
+
+/-! ### `sortById` -/
+
+theorem insertById_perm (o : Op) (l : List Op) : (insertById o l).Perm (o :: l) := by
+  induction l with
+  | nil => exact List.Perm.refl _
+  | cons x xs ih =>
+    simp only [insertById]
+    split
+    · exact List.Perm.refl _
+    · exact ((List.Perm.cons x ih).trans (List.Perm.swap o x xs))
+
+theorem sortById_perm (l : List Op) : (sortById l).Perm l := by
+  induction l with
+  | nil => exact List.Perm.refl _
+  | cons x xs ih =>
+    show (insertById x (sortById xs)).Perm (x :: xs)
+    exact (insertById_perm x _).trans (List.Perm.cons x ih)
+
+theorem mem_sortById {l : List Op} {o : Op} : o ∈ sortById l ↔ o ∈ l := (sortById_perm l).mem_iff
+
+/-- ascending by id (non-strict form: no later entry has a smaller id) -/
+abbrev AscById (l : List Op) : Prop := l.Pairwise (fun a b => b.id.lt a.id = false)
+
+theorem insertById_asc (o : Op) {l : List Op} (h : AscById l) : AscById (insertById o l) := by
+  induction l with
+  | nil => exact List.pairwise_singleton _ _
+  | cons x xs ih =>
+    simp only [insertById]
+    split
+    · rename_i hox
+      refine List.Pairwise.cons (fun b hb => ?_) h
+      rcases List.mem_cons.mp hb with rfl | hb
+      · cases hc : b.id.lt o.id
+        · rfl
+        · exact (OpId.lt_asymm hox hc).elim
+      · have hxb := List.rel_of_pairwise_cons h hb
+        cases hc : b.id.lt o.id
+        · rfl
+        · have := OpId.lt_trans hc hox
+          rw [hxb] at this; cases this
+    · rename_i hox
+      refine List.Pairwise.cons (fun b hb => ?_) (ih (List.Pairwise.of_cons h))
+      rcases List.mem_cons.mp ((insertById_perm o xs).mem_iff.mp hb) with rfl | hb
+      · simpa using hox
+      · exact List.rel_of_pairwise_cons h hb
+
+theorem sortById_asc (l : List Op) : AscById (sortById l) := by
+  induction l with
+  | nil => exact List.Pairwise.nil
+  | cons x xs ih => exact insertById_asc x ih
+
+/-- the sorted list depends only on the multiset of ops -/
+theorem sortById_eq_of_perm {l₁ l₂ : List Op} (h : l₁.Perm l₂) (hd : DistinctIds l₁) :
+    sortById l₁ = sortById l₂ := by
+  refine List.Perm.eq_of_pairwise (le := fun a b => b.id.lt a.id = false) ?_ (sortById_asc l₁)
+    (sortById_asc l₂) ((sortById_perm l₁).trans (h.trans (sortById_perm l₂).symm))
+  intro a b ha hb hab hba
+  exact hd a (mem_sortById.mp ha) b (h.mem_iff.mpr (mem_sortById.mp hb)) (OpId.eq_of_not_lt hba hab)
+
+/-- with no repeated op the sorted list is strictly ascending -/
+theorem sortById_strict {l : List Op} (hd : StrictIds l) :
+    (sortById l).Pairwise (fun a b => a.id.lt b.id = true) := by
+  have hs : StrictIds (sortById l) := hd.perm (sortById_perm l).symm
+  have ha := sortById_asc l
+  unfold StrictIds AscById at *
+  refine List.Pairwise.imp₂ ?_ hs ha
+  intro a b hne hnlt
+  rcases OpId.lt_total hne with h | h
+  · exact h
+  · rw [h] at hnlt; cases hnlt
+
+/-- the sorted list is the unique strictly ascending list with the same members -/
+theorem sortById_unique {l s : List Op} (hd : StrictIds l)
+    (hs : s.Pairwise (fun a b => a.id.lt b.id = true)) (hm : ∀ x, x ∈ s ↔ x ∈ l) : s = sortById l :=
+  eq_of_pairwise_of_mem_iff (fun _ _ h₁ h₂ => OpId.lt_asymm h₁ h₂) s (sortById l) hs
+    (sortById_strict hd) (fun x => (hm x).trans mem_sortById.symm)
+
+/-! ### `mapKeys` -/
+
+/-- the key-collecting fold of `mapKeys` -/
+def keysOf (l : List Op) : List Bytes :=
+  l.foldr (fun o acc => match o.key with | .map k => insertKey k acc | _ => acc) []
+
+theorem mem_insertKey {k x : Bytes} {l : List Bytes} : x ∈ insertKey k l ↔ x = k ∨ x ∈ l := by
+  induction l with
+  | nil => simp [insertKey]
+  | cons y ys ih =>
+    simp only [insertKey]
+    split
+    · rename_i h
+      have : k = y := by simpa using h
+      subst this
+      simp
+    · split
+      · simp
+      · simp only [List.mem_cons, ih]
+        constructor
+        · rintro (h | h | h) <;> simp [h]
+        · rintro (h | h | h) <;> simp [h]
+
+theorem insertKey_sorted (k : Bytes) {l : List Bytes} (h : l.Pairwise (fun a b => bytesLt a b = true)) :
+    (insertKey k l).Pairwise (fun a b => bytesLt a b = true) := by
+  induction l with
+  | nil => exact List.pairwise_singleton _ _
+  | cons y ys ih =>
+    simp only [insertKey]
+    split
+    · exact h
+    · rename_i hne
+      have hne : k ≠ y := by simpa using hne
+      split
+      · rename_i hlt
+        refine List.Pairwise.cons (fun b hb => ?_) h
+        rcases List.mem_cons.mp hb with rfl | hb
+        · exact hlt
+        · exact bytesLt_trans hlt (List.rel_of_pairwise_cons h hb)
+      · rename_i hnlt
+        refine List.Pairwise.cons (fun b hb => ?_) (ih (List.Pairwise.of_cons h))
+        rcases mem_insertKey.mp hb with rfl | hb
+        · rcases bytesLt_total hne with h' | h'
+          · exact absurd h' hnlt
+          · exact h'
+        · exact List.rel_of_pairwise_cons h hb
+
+theorem keysOf_sorted (l : List Op) : (keysOf l).Pairwise (fun a b => bytesLt a b = true) := by
+  induction l with
+  | nil => exact List.Pairwise.nil
+  | cons x xs ih =>
+    show List.Pairwise _ (match x.key with | .map k => insertKey k (keysOf xs) | _ => keysOf xs)
+    split
+    · exact insertKey_sorted _ ih
+    · exact ih
+
+theorem mem_keysOf {l : List Op} {k : Bytes} : k ∈ keysOf l ↔ ∃ o ∈ l, o.key = .map k := by
+  induction l with
+  | nil => simp [keysOf]
+  | cons x xs ih =>
+    show k ∈ (match x.key with | .map k => insertKey k (keysOf xs) | _ => keysOf xs) ↔ _
+    split
+    · rename_i k' hk
+      simp only [mem_insertKey, ih, List.mem_cons, exists_eq_or_imp, hk, Key.map.injEq]
+      constructor
+      · rintro (h | h)
+        · exact .inl h.symm
+        · exact .inr h
+      · rintro (h | h)
+        · exact .inl h.symm
+        · exact .inr h
+    · rename_i hk
+      simp only [ih, List.mem_cons, exists_eq_or_imp]
+      constructor
+      · exact fun h => .inr h
+      · rintro (h | h)
+        · exact (hk k h).elim
+        · exact h
+
+/-- the key list depends only on the *set* of ops -/
+theorem keysOf_eq_of_mem_iff {l₁ l₂ : List Op} (h : ∀ o, o ∈ l₁ ↔ o ∈ l₂) : keysOf l₁ = keysOf l₂ := by
+  refine eq_of_pairwise_of_mem_iff (fun _ _ h₁ h₂ => bytesLt_asymm h₁ h₂) _ _ (keysOf_sorted l₁)
+    (keysOf_sorted l₂) (fun k => ?_)
+  simp only [mem_keysOf, h]
+
+theorem mapKeys_eq_keysOf (ops : List Op) (obj : ObjId) :
+    mapKeys ops obj = keysOf (ops.filter (fun o => o.obj == obj && visible ops o)) := rfl
+
+/-! ## §4 every observable is invariant under permutation of the op list -/
+
+section Perm
+variable {ops₁ ops₂ : List Op}
+
+theorem overwritten_perm (h : ops₁.Perm ops₂) (o : Op) : overwritten ops₁ o = overwritten ops₂ o := by
+  rw [Bool.eq_iff_iff]
+  simp only [overwritten, List.any_eq_true, h.mem_iff]
+
+theorem visible_perm (h : ops₁.Perm ops₂) (o : Op) : visible ops₁ o = visible ops₂ o := by
+  simp only [visible, overwritten_perm h]
+
+theorem counterValue_perm (h : ops₁.Perm ops₂) (o : Op) (init : Int) :
+    counterValue ops₁ o init = counterValue ops₂ o init := by
+  unfold counterValue
+  refine List.Perm.foldl_eq' (h.filter _) ?_ init
+  intro x _ y _ z
+  omega
+
+theorem entryOf_perm (h : ops₁.Perm ops₂) (o : Op) : entryOf ops₁ o = entryOf ops₂ o := by
+  unfold entryOf
+  split <;> simp only [counterValue_perm h]
+
+/-- filtering then sorting by id: the shape shared by `mapRegister`, `elemRegister`, `children` -/
+theorem sortById_filter_perm (h : ops₁.Perm ops₂) (hd : DistinctIds ops₁) (p : Op → Bool) :
+    sortById (ops₁.filter p) = sortById (ops₂.filter p) :=
+  sortById_eq_of_perm (h.filter p) (hd.filter p)
+
+theorem mapRegister_perm (h : ops₁.Perm ops₂) (hd : DistinctIds ops₁) (obj : ObjId) (k : Bytes) :
+    mapRegister ops₁ obj k = mapRegister ops₂ obj k := by
+  unfold mapRegister
+  have hv : visible ops₁ = visible ops₂ := funext (visible_perm h)
+  have he : entryOf ops₁ = entryOf ops₂ := funext (entryOf_perm h)
+  rw [hv, he, sortById_filter_perm h hd]
+
+theorem elemRegister_perm (h : ops₁.Perm ops₂) (hd : DistinctIds ops₁) (obj : ObjId) (e : OpId) :
+    elemRegister ops₁ obj e = elemRegister ops₂ obj e := by
+  unfold elemRegister
+  have hv : visible ops₁ = visible ops₂ := funext (visible_perm h)
+  have he : entryOf ops₁ = entryOf ops₂ := funext (entryOf_perm h)
+  rw [hv, he, sortById_filter_perm h hd]
+
+/-- `mapKeys` needs no distinctness: it depends only on the *set* of ops -/
+theorem mapKeys_perm (h : ops₁.Perm ops₂) (obj : ObjId) : mapKeys ops₁ obj = mapKeys ops₂ obj := by
+  rw [mapKeys_eq_keysOf, mapKeys_eq_keysOf]
+  have hv : visible ops₁ = visible ops₂ := funext (visible_perm h)
+  rw [hv]
+  exact keysOf_eq_of_mem_iff (fun o => (h.filter _).mem_iff)
+
+theorem children_perm (h : ops₁.Perm ops₂) (hd : DistinctIds ops₁) (obj : ObjId) (parent : Key) :
+    children ops₁ obj parent = children ops₂ obj parent := by
+  unfold children
+  rw [sortById_filter_perm h hd]
+
+theorem rgaFrom_perm (h : ops₁.Perm ops₂) (hd : DistinctIds ops₁) (obj : ObjId) :
+    ∀ (fuel : Nat) (parent : Key), rgaFrom ops₁ obj fuel parent = rgaFrom ops₂ obj fuel parent
+  | 0, _ => rfl
+  | fuel + 1, parent => by
+    have ih : rgaFrom ops₁ obj fuel = rgaFrom ops₂ obj fuel := funext (rgaFrom_perm h hd obj fuel)
+    simp only [rgaFrom, children_perm h hd, ih]
+
+theorem rgaOrder_perm (h : ops₁.Perm ops₂) (hd : DistinctIds ops₁) (obj : ObjId) :
+    rgaOrder ops₁ obj = rgaOrder ops₂ obj := by
+  unfold rgaOrder
+  rw [h.length_eq, rgaFrom_perm h hd]
+
+theorem seqElems_perm (h : ops₁.Perm ops₂) (hd : DistinctIds ops₁) (obj : ObjId) :
+    seqElems ops₁ obj = seqElems ops₂ obj := by
+  unfold seqElems
+  have he : elemRegister ops₁ obj = elemRegister ops₂ obj := funext (elemRegister_perm h hd obj)
+  rw [rgaOrder_perm h hd, he]
+
+/-- under `DistinctIds` a lookup by id finds the same op whatever the list order -/
+theorem find?_id_perm (h : ops₁.Perm ops₂) (hd : DistinctIds ops₁) (o : OpId) :
+    ops₁.find? (fun p => p.id == o) = ops₂.find? (fun p => p.id == o) := by
+  cases h₁ : ops₁.find? (fun p => p.id == o) with
+  | none =>
+    symm
+    rw [List.find?_eq_none] at h₁ ⊢
+    exact fun x hx => h₁ x (h.mem_iff.mpr hx)
+  | some a =>
+    have ha := List.mem_of_find?_eq_some h₁
+    have hao : a.id = o := by simpa using List.find?_some h₁
+    cases h₂ : ops₂.find? (fun p => p.id == o) with
+    | none =>
+      rw [List.find?_eq_none] at h₂
+      exact absurd (by simpa using hao) (h₂ a (h.mem_iff.mp ha))
+    | some b =>
+      have hb := List.mem_of_find?_eq_some h₂
+      have hbo : b.id = o := by simpa using List.find?_some h₂
+      rw [hd a ha b (h.mem_iff.mpr hb) (hao.trans hbo.symm)]
+
+theorem objType_perm (h : ops₁.Perm ops₂) (hd : DistinctIds ops₁) (obj : ObjId) :
+    objType ops₁ obj = objType ops₂ obj := by
+  cases obj with
+  | root => rfl
+  | id o => simp only [objType, find?_id_perm h hd]
+
+theorem restrict_perm (h : ops₁.Perm ops₂) (covered : OpId → Bool) :
+    (restrict ops₁ covered).Perm (restrict ops₂ covered) := h.filter _
+
+theorem showObj_perm (h : ops₁.Perm ops₂) (hd : DistinctIds ops₁) :
+    ∀ (fuel : Nat) (obj : ObjId) (ty : ObjType), showObj ops₁ fuel obj ty = showObj ops₂ fuel obj ty
+  | 0, _, _ => rfl
+  | fuel + 1, obj, ty => by
+    have ih : showObj ops₁ fuel = showObj ops₂ fuel :=
+      funext fun o => funext fun t => showObj_perm h hd fuel o t
+    have hk : mapKeys ops₁ = mapKeys ops₂ := funext (mapKeys_perm h)
+    have hr : mapRegister ops₁ = mapRegister ops₂ :=
+      funext fun o => funext fun k => mapRegister_perm h hd o k
+    have hs : seqElems ops₁ = seqElems ops₂ := funext (seqElems_perm h hd)
+    simp only [showObj, ih, hk, hr, hs]
+
+/-- **C01, spec side**: the rendered document is a function of the op multiset. -/
+theorem showDoc_perm (ops₁ ops₂ : List Op) (h : ops₁.Perm ops₂) (hd : DistinctIds ops₁) :
+    showDoc ops₁ = showDoc ops₂ := by
+  unfold showDoc
+  rw [h.length_eq, showObj_perm h hd]
+
+end Perm
+
+/-! ## §5 clause lemmas: the spec says what C02 says -/
+
+theorem entryOf_id (ops : List Op) (o : Op) : (entryOf ops o).id = o.id := by
+  unfold entryOf; split <;> rfl
+
+/-- "the operations not named as predecessor by a later delete, overwrite or non-counter
+    increment": unfolding of `visible` -/
+theorem visible_iff {ops : List Op} {o : Op} :
+    visible ops o = true ↔
+      o.isValue = true ∧
+        ¬ ∃ p ∈ ops, o.id ∈ p.pred ∧ ¬ (p.isInc = true ∧ o.isCounterPut = true) := by
+  simp only [visible, overwritten, overwrites, Bool.and_eq_true, Bool.not_eq_eq_eq_not, Bool.not_true,
+    List.any_eq_false, List.contains_iff_mem, Bool.and_eq_false_imp, not_exists, not_and,
+    Bool.not_eq_true]
+
+theorem mem_sortedEntries {ops L : List Op} {e : Entry} :
+    e ∈ (sortById L).map (entryOf ops) ↔ ∃ o ∈ L, e = entryOf ops o := by
+  simp only [List.mem_map, mem_sortById]
+  constructor
+  · rintro ⟨o, ho, rfl⟩; exact ⟨o, ho, rfl⟩
+  · rintro ⟨o, ho, rfl⟩; exact ⟨o, ho, rfl⟩
+
+theorem mem_mapRegister {ops : List Op} {obj : ObjId} {k : Bytes} {e : Entry} :
+    e ∈ mapRegister ops obj k ↔
+      ∃ o ∈ ops, o.obj = obj ∧ o.key = .map k ∧ visible ops o = true ∧ e = entryOf ops o := by
+  unfold mapRegister
+  rw [mem_sortedEntries]
+  simp only [List.mem_filter, Bool.and_eq_true, beq_iff_eq]
+  constructor
+  · rintro ⟨o, ⟨ho, ⟨h₁, h₂⟩, h₃⟩, rfl⟩; exact ⟨o, ho, h₁, h₂, h₃, rfl⟩
+  · rintro ⟨o, ho, h₁, h₂, h₃, rfl⟩; exact ⟨o, ⟨ho, ⟨h₁, h₂⟩, h₃⟩, rfl⟩
+
+theorem mem_elemRegister {ops : List Op} {obj : ObjId} {el : OpId} {e : Entry} :
+    e ∈ elemRegister ops obj el ↔
+      ∃ o ∈ ops, o.obj = obj ∧ o.elem = some el ∧ visible ops o = true ∧ e = entryOf ops o := by
+  unfold elemRegister
+  rw [mem_sortedEntries]
+  simp only [List.mem_filter, Bool.and_eq_true, beq_iff_eq]
+  constructor
+  · rintro ⟨o, ⟨ho, ⟨h₁, h₂⟩, h₃⟩, rfl⟩; exact ⟨o, ho, h₁, h₂, h₃, rfl⟩
+  · rintro ⟨o, ho, h₁, h₂, h₃, rfl⟩; exact ⟨o, ⟨ho, ⟨h₁, h₂⟩, h₃⟩, rfl⟩
+
+/-- the map register is exactly the not-overwritten set/make ops of that key -/
+theorem register_mem_iff {ops : List Op} {obj : ObjId} {k : Bytes} {e : Entry} :
+    e ∈ mapRegister ops obj k ↔
+      ∃ o ∈ ops, o.obj = obj ∧ o.key = .map k ∧ o.isValue = true ∧
+        (¬ ∃ p ∈ ops, o.id ∈ p.pred ∧ ¬ (p.isInc = true ∧ o.isCounterPut = true)) ∧
+        e = entryOf ops o := by
+  rw [mem_mapRegister]
+  simp only [visible_iff, and_assoc]
+
+/-- the element register is exactly the not-overwritten set/make ops of that element -/
+theorem elemRegister_mem_iff {ops : List Op} {obj : ObjId} {el : OpId} {e : Entry} :
+    e ∈ elemRegister ops obj el ↔
+      ∃ o ∈ ops, o.obj = obj ∧ o.elem = some el ∧ o.isValue = true ∧
+        (¬ ∃ p ∈ ops, o.id ∈ p.pred ∧ ¬ (p.isInc = true ∧ o.isCounterPut = true)) ∧
+        e = entryOf ops o := by
+  rw [mem_elemRegister]
+  simp only [visible_iff, and_assoc]
+
+/-! ### the greatest id wins -/
+
+theorem getLast_max {α : Type} {R : α → α → Prop} :
+    ∀ {l : List α} (_ : l.Pairwise R) (hne : l ≠ []), ∀ e ∈ l, e = l.getLast hne ∨ R e (l.getLast hne)
+  | [], _, hne, _, _ => absurd rfl hne
+  | [x], _, _, e, he => by
+    left; simpa using he
+  | x :: y :: ys, h, _, e, he => by
+    rw [List.getLast_cons (List.cons_ne_nil y ys)]
+    rcases List.mem_cons.mp he with rfl | he
+    · exact .inr (List.rel_of_pairwise_cons h (List.getLast_mem _))
+    · exact getLast_max (List.Pairwise.of_cons h) (List.cons_ne_nil y ys) e he
+
+theorem sortedEntries_asc (ops L : List Op) :
+    ((sortById L).map (entryOf ops)).Pairwise (fun a b => b.id.lt a.id = false) := by
+  rw [List.pairwise_map]
+  simp only [entryOf_id]
+  exact sortById_asc L
+
+theorem sortedEntries_strict (ops : List Op) {L : List Op} (hd : StrictIds L) :
+    ((sortById L).map (entryOf ops)).Pairwise (fun a b => a.id.lt b.id = true) := by
+  rw [List.pairwise_map]
+  simp only [entryOf_id]
+  exact sortById_strict hd
+
+theorem sortedEntries_winner (ops : List Op) {L : List Op} (hd : DistinctIds L)
+    (hne : (sortById L).map (entryOf ops) ≠ []) :
+    ∀ e ∈ (sortById L).map (entryOf ops),
+      e = ((sortById L).map (entryOf ops)).getLast hne ∨
+      e.id.lt (((sortById L).map (entryOf ops)).getLast hne).id = true := by
+  intro e he
+  rcases getLast_max (sortedEntries_asc ops L) hne e he with h | h
+  · exact .inl h
+  · have hl := List.getLast_mem hne
+    generalize ((sortById L).map (entryOf ops)).getLast hne = w at *
+    by_cases hid : e.id = w.id
+    · left
+      obtain ⟨o, ho, rfl⟩ := mem_sortedEntries.mp he
+      obtain ⟨o', ho', rfl⟩ := mem_sortedEntries.mp hl
+      simp only [entryOf_id] at hid
+      rw [hd o ho o' ho' hid]
+    · rcases OpId.lt_total hid with h' | h'
+      · exact .inr h'
+      · rw [h'] at h; cases h
+
+/-- "with the greatest (counter, actor) id winning": the register is ascending by id … -/
+theorem mapRegister_asc (ops : List Op) (obj : ObjId) (k : Bytes) :
+    (mapRegister ops obj k).Pairwise (fun a b => b.id.lt a.id = false) := sortedEntries_asc ops _
+
+theorem elemRegister_asc (ops : List Op) (obj : ObjId) (el : OpId) :
+    (elemRegister ops obj el).Pairwise (fun a b => b.id.lt a.id = false) := sortedEntries_asc ops _
+
+/-- … strictly so when no op is repeated … -/
+theorem mapRegister_strict {ops : List Op} (hd : StrictIds ops) (obj : ObjId) (k : Bytes) :
+    (mapRegister ops obj k).Pairwise (fun a b => a.id.lt b.id = true) :=
+  sortedEntries_strict ops (hd.filter _)
+
+theorem elemRegister_strict {ops : List Op} (hd : StrictIds ops) (obj : ObjId) (el : OpId) :
+    (elemRegister ops obj el).Pairwise (fun a b => a.id.lt b.id = true) :=
+  sortedEntries_strict ops (hd.filter _)
+
+/-- … and its last entry (the winner) has the greatest id among the entries. -/
+theorem winner_is_max_id {ops : List Op} (hd : DistinctIds ops) (obj : ObjId) (k : Bytes)
+    (hne : mapRegister ops obj k ≠ []) :
+    ∀ e ∈ mapRegister ops obj k,
+      e = (mapRegister ops obj k).getLast hne ∨
+      e.id.lt ((mapRegister ops obj k).getLast hne).id = true :=
+  sortedEntries_winner ops (hd.filter _) hne
+
+theorem elem_winner_is_max_id {ops : List Op} (hd : DistinctIds ops) (obj : ObjId) (el : OpId)
+    (hne : elemRegister ops obj el ≠ []) :
+    ∀ e ∈ elemRegister ops obj el,
+      e = (elemRegister ops obj el).getLast hne ∨
+      e.id.lt ((elemRegister ops obj el).getLast hne).id = true :=
+  sortedEntries_winner ops (hd.filter _) hne
+
+/-! ### deletes, overwrites and increments -/
+
+/-- a delete or overwrite (anything but an increment) naming `o` as predecessor removes it -/
+theorem pred_overwrites {ops : List Op} {p o : Op} (hp : p ∈ ops) (hm : o.id ∈ p.pred)
+    (hni : p.isInc = false) : visible ops o = false := by
+  cases hv : visible ops o
+  · rfl
+  · exact ((visible_iff.mp hv).2 ⟨p, hp, hm, by simp [hni]⟩).elim
+
+/-- a non-counter increment: an increment naming a non-counter value removes it -/
+theorem inc_overwrites_noncounter {ops : List Op} {p o : Op} (hp : p ∈ ops) (hm : o.id ∈ p.pred)
+    (hnc : o.isCounterPut = false) : visible ops o = false := by
+  cases hv : visible ops o
+  · rfl
+  · exact ((visible_iff.mp hv).2 ⟨p, hp, hm, by simp [hnc]⟩).elim
+
+/-- register form: the overwritten op's id is absent from its register -/
+theorem overwritten_not_in_register {ops : List Op} (hd : DistinctIds ops) {p o : Op} (ho : o ∈ ops)
+    (hp : p ∈ ops) (hm : o.id ∈ p.pred) (h : p.isInc = false ∨ o.isCounterPut = false)
+    (obj : ObjId) (k : Bytes) : ∀ e ∈ mapRegister ops obj k, e.id ≠ o.id := by
+  intro e he hid
+  obtain ⟨o', ho', _, _, hv, rfl⟩ := mem_mapRegister.mp he
+  rw [entryOf_id] at hid
+  have := hd o' ho' o ho hid
+  subst this
+  rcases h with h | h
+  · rw [pred_overwrites hp hm h] at hv; cases hv
+  · rw [inc_overwrites_noncounter hp hm h] at hv; cases hv
+
+/-- an increment naming a counter put as predecessor does not remove it -/
+theorem inc_keeps_counter (ops : List Op) {p o : Op} (hp : p.isInc = true)
+    (hc : o.isCounterPut = true) : visible (p :: ops) o = visible ops o := by
+  simp [visible, overwritten, overwrites, hp, hc]
+
+/-- register form: a visible counter stays in its register when an increment arrives -/
+theorem inc_keeps_counter_register {ops : List Op} {p o : Op} {k : Bytes} (ho : o ∈ ops)
+    (hk : o.key = .map k) (hv : visible ops o = true) (hp : p.isInc = true)
+    (hc : o.isCounterPut = true) :
+    entryOf (p :: ops) o ∈ mapRegister (p :: ops) o.obj k :=
+  mem_mapRegister.mpr ⟨o, List.mem_cons_of_mem _ ho, rfl, hk, by rw [inc_keeps_counter ops hp hc, hv], rfl⟩
+
+/-! ### counters -/
+
+theorem foldl_add_eq_sum {α : Type} (f : α → Int) (l : List α) (init : Int) :
+    l.foldl (fun acc p => acc + f p) init = init + (l.map f).sum := by
+  induction l generalizing init with
+  | nil => simp
+  | cons x xs ih => simp only [List.foldl_cons, ih, List.map_cons, List.sum_cons]; omega
+
+/-- "A counter reads as its initial value plus every increment that names it as predecessor." -/
+theorem counter_value_sum (ops : List Op) (o : Op) (init : Int) :
+    counterValue ops o init =
+      init + ((ops.filter (fun p => p.isInc && p.pred.contains o.id)).map Op.incAmount).sum :=
+  foldl_add_eq_sum _ _ _
+
+theorem counterValue_cons (p : Op) (ops : List Op) (o : Op) (init : Int) :
+    counterValue (p :: ops) o init =
+      counterValue ops o init + (if (p.isInc && p.pred.contains o.id) = true then p.incAmount else 0) := by
+  rw [counter_value_sum, counter_value_sum, List.filter_cons]
+  split
+  · simp only [List.map_cons, List.sum_cons]; omega
+  · omega
+
+/-- the entry a counter put reads as -/
+theorem entryOf_counter (ops : List Op) (o : Op) (i : Int) (h : o.action = .put (.counter i)) :
+    entryOf ops o = ⟨o.id, .counter (i +
+      ((ops.filter (fun p => p.isInc && p.pred.contains o.id)).map Op.incAmount).sum)⟩ := by
+  simp only [entryOf, h, counter_value_sum]
+
+/-! ### map keys -/
+
+theorem mapKeys_sorted (ops : List Op) (obj : ObjId) :
+    (mapKeys ops obj).Pairwise (fun a b => bytesLt a b = true) := keysOf_sorted _
+
+theorem mem_mapKeys {ops : List Op} {obj : ObjId} {k : Bytes} :
+    k ∈ mapKeys ops obj ↔ ∃ o ∈ ops, o.obj = obj ∧ o.key = .map k ∧ visible ops o = true := by
+  rw [mapKeys_eq_keysOf, mem_keysOf]
+  simp only [List.mem_filter, Bool.and_eq_true, beq_iff_eq]
+  constructor
+  · rintro ⟨o, ⟨ho, h₁, h₂⟩, h₃⟩; exact ⟨o, ho, h₁, h₃, h₂⟩
+  · rintro ⟨o, ho, h₁, h₃, h₂⟩; exact ⟨o, ⟨ho, h₁, h₂⟩, h₃⟩
+
+/-- the listed keys are exactly those whose register is non-empty -/
+theorem mem_mapKeys_iff_register_ne_nil {ops : List Op} {obj : ObjId} {k : Bytes} :
+    k ∈ mapKeys ops obj ↔ mapRegister ops obj k ≠ [] := by
+  rw [mem_mapKeys]
+  constructor
+  · rintro ⟨o, ho, h₁, h₂, h₃⟩
+    exact List.ne_nil_of_mem (mem_mapRegister.mpr ⟨o, ho, h₁, h₂, h₃, rfl⟩)
+  · intro hne
+    obtain ⟨e, he⟩ := List.exists_mem_of_ne_nil _ hne
+    obtain ⟨o, ho, h₁, h₂, h₃, _⟩ := mem_mapRegister.mp he
+    exact ⟨o, ho, h₁, h₂, h₃⟩
+
+/-! ### RGA -/
+
+theorem mem_children {ops : List Op} {obj : ObjId} {parent : Key} {c : Op} :
+    c ∈ children ops obj parent ↔ c ∈ ops ∧ c.obj = obj ∧ c.insert = true ∧ c.key = parent := by
+  simp only [children, List.mem_reverse, mem_sortById, List.mem_filter, Bool.and_eq_true, beq_iff_eq,
+    and_assoc]
+
+/-- "higher-id siblings first": siblings are listed by descending id (non-strict form) -/
+theorem children_desc (ops : List Op) (obj : ObjId) (parent : Key) :
+    (children ops obj parent).Pairwise (fun a b => a.id.lt b.id = false) := by
+  unfold children
+  rw [List.pairwise_reverse]
+  exact sortById_asc _
+
+/-- strictly descending when no op is repeated -/
+theorem children_strict_desc {ops : List Op} (hd : StrictIds ops) (obj : ObjId) (parent : Key) :
+    (children ops obj parent).Pairwise (fun a b => b.id.lt a.id = true) := by
+  unfold children
+  rw [List.pairwise_reverse]
+  exact sortById_strict (hd.filter _)
+
+/-- each sibling is followed by its whole subtree, then the next (smaller-id) sibling -/
+theorem rgaFrom_succ (ops : List Op) (obj : ObjId) (fuel : Nat) (parent : Key) :
+    rgaFrom ops obj (fuel + 1) parent =
+      (children ops obj parent).flatMap (fun c => c :: rgaFrom ops obj fuel (.elem c.id)) := rfl
+
+/-- a sibling `c` and its subtree come after the subtrees of the siblings listed before it
+    (greater ids) and before the subtrees of those listed after it (smaller ids) -/
+theorem rgaFrom_split {ops : List Op} {obj : ObjId} {parent : Key} {l₁ l₂ : List Op} {c : Op}
+    (hc : children ops obj parent = l₁ ++ c :: l₂) (fuel : Nat) :
+    rgaFrom ops obj (fuel + 1) parent =
+      l₁.flatMap (fun c => c :: rgaFrom ops obj fuel (.elem c.id)) ++
+        (c :: rgaFrom ops obj fuel (.elem c.id) ++
+          l₂.flatMap (fun c => c :: rgaFrom ops obj fuel (.elem c.id))) := by
+  rw [rgaFrom_succ, hc, List.flatMap_append, List.flatMap_cons]
+
+theorem rga_higher_id_first {ops : List Op} (hd : StrictIds ops) (obj : ObjId) (fuel : Nat)
+    (parent : Key) :
+    (children ops obj parent).Pairwise (fun a b => b.id.lt a.id = true) ∧
+    rgaFrom ops obj (fuel + 1) parent =
+      (children ops obj parent).flatMap (fun c => c :: rgaFrom ops obj fuel (.elem c.id)) :=
+  ⟨children_strict_desc hd obj parent, rfl⟩
+
+/-- what `seqElems` lists: the non-mark elements of the RGA order with a non-empty register -/
+theorem mem_seqElems {ops : List Op} {obj : ObjId} {i : OpId} {r : List Entry} :
+    (i, r) ∈ seqElems ops obj ↔
+      ∃ e ∈ rgaOrder ops obj, e.isMark = false ∧ e.id = i ∧ r = elemRegister ops obj i ∧ r ≠ [] := by
+  unfold seqElems
+  rw [List.mem_filterMap]
+  constructor
+  · rintro ⟨e, he, h⟩
+    refine ⟨e, he, ?_⟩
+    cases hm : e.isMark
+    · simp only [hm, Bool.false_eq_true, if_false] at h
+      split at h
+      · cases h
+      · rename_i hne
+        simp only [Option.some.injEq, Prod.mk.injEq] at h
+        obtain ⟨rfl, rfl⟩ := h
+        exact ⟨rfl, rfl, rfl, fun hh => hne hh⟩
+    · simp [hm] at h
+  · rintro ⟨e, he, hm, rfl, rfl, hne⟩
+    refine ⟨e, he, ?_⟩
+    simp only [hm, Bool.false_eq_true, if_false]
+
 end AmVerif.Crdt
